@@ -566,7 +566,12 @@ func genMessagesCase(t *rapid.T) Case {
 	span := rapid.Uint64Range(1, 3).Draw(t, "slots")
 	periodFirst := pb * epp * spe
 	periodLast := (pb+1)*epp*spe - 1
-	switch rapid.SampledFrom([]string{"period-start", "period-end", "mid", "mid"}).Draw(t, "startClass") {
+	switch rapid.SampledFrom([]string{"period-start", "period-end", "mid", "mid", "later-fork"}).Draw(t, "startClass") {
+	case "later-fork":
+		// a later hard fork (new fork version) right after one of the executed slots
+		e := pb*epp + rapid.Uint64Range(0, epp-2).Draw(t, "epochBeforeFork")
+		c.StartSlot = e*spe + spe - 1 - rapid.Uint64Range(1, min(span, spe-1)).Draw(t, "beforeBoundary")
+		ch.LaterForkEpoch = e + 1
 	case "period-start":
 		c.StartSlot = periodFirst + rapid.Uint64Range(0, 1).Draw(t, "afterFirst")
 	case "period-end":
@@ -625,7 +630,7 @@ func check(t ev.TB, c *Case) {
 			"m:faulty-and-healthy-members": nontrivial, "m:all-healthy": st.faultyMembers == 0 && st.healthyMembers > 0,
 			"m:expected-contributions": st.expectedContribs > 0, "m:committee-32": ch.CommitteeSize == 32,
 			"m:committee-512": ch.CommitteeSize == 512, "m:runs-across-period-boundary": st.crossesPeriod,
-			"m:start-in-epoch-0": st.startEpoch0,
+			"m:start-in-epoch-0": st.startEpoch0, "m:later-fork-after-an-executed-slot": ch.LaterForkEpoch > 0,
 		} {
 			if on {
 				labels = append(labels, name)
